@@ -26,7 +26,8 @@ pub enum Edit {
     Const { pos: usize, id: u32 },
     Wrap { pos: usize, old_id: u32, new_id: u32 },
     Unwrap { pos: usize, old_id: u32, new_id: u32 },
-    Reorder { a: usize, b: usize },
+    /// the sites with these two ids exchanged places
+    Reorder { a_id: u32, b_id: u32 },
     Noop,
     Fault(Fault),
 }
@@ -304,7 +305,7 @@ impl ProgGen {
                         b = (a + 1) % n;
                     }
                     p.sites.swap(a, b);
-                    p.edit = Edit::Reorder { a, b };
+                    p.edit = Edit::Reorder { a_id: p.sites[a].id, b_id: p.sites[b].id };
                     return p;
                 }
                 _ => {}
